@@ -4,6 +4,7 @@ import (
 	"fmt"
 	"strings"
 
+	"github.com/dolthub/go-mysql-server/vh/internal/kf"
 	"pgregory.net/rapid"
 )
 
@@ -185,6 +186,10 @@ func (w *W) Int(d int) string {
 		return "SIGN(" + w.Int(d-1) + ")"
 	case 4:
 		w.feat("numfn")
+		if kf.Listed(idNegZero) {
+			// region of C05-hashin-negative-zero (while listed): MOD with a negative divisor yields -0
+			return "MOD(" + w.Int(d-1) + "," + w.oneOf("modk", "2", "3") + ")"
+		}
 		return "MOD(" + w.Int(d-1) + "," + w.oneOf("modk", "2", "3", "-2") + ")"
 	case 5:
 		w.feat("numfn")
